@@ -1077,7 +1077,22 @@ func init() {
 		}
 		return pts, ws
 	}
+	// zero closure of a symmetric p x p argument starting at offset o: (i,j) and (j,i) together
+	symGroups := func(o, p int) [][]int {
+		g := [][]int{}
+		for i := 0; i < p; i++ {
+			for j := i; j < p; j++ {
+				if i == j {
+					g = append(g, []int{o + i*p + j})
+				} else {
+					g = append(g, []int{o + i*p + j, o + j*p + i})
+				}
+			}
+		}
+		return g
+	}
 	reg(&family{name: "iwishart", kind: "matrix",
+		zeroGroups: func(d Dist, n int) [][]int { return symGroups(0, dimFrom(len(d.P), 0, 1)) },
 		build: func(d Dist, t ScalarType) (any, error) {
 			p := dimFrom(len(d.P), 0, 1)
 			v := f64s(d.P)
@@ -1142,6 +1157,14 @@ func init() {
 		return p, v[0], v[1], v[2 : 2+p], v[2+p:]
 	}
 	reg(&family{name: "niwishart", kind: "niw",
+		zeroGroups: func(d Dist, n int) [][]int {
+			p := dimFrom(len(d.P), 1, 2)
+			g := [][]int{}
+			for i := 0; i < p; i++ {
+				g = append(g, []int{i})
+			}
+			return append(g, symGroups(p, p)...)
+		},
 		build: func(d Dist, t ScalarType) (any, error) {
 			p, ka, nu, mu, la := niwSplit(d)
 			return wrap(md.NewNormalIWishartDistribution(S(t, ka), S(t, nu), vecOf(t, mu), matOf(t, la, p, p)))
